@@ -90,7 +90,8 @@ def companion(tier):
 # ---------------------------------------------------------------------------
 # constructor families: each maps (new, others) -> iterable of candidate terms (typed afterwards)
 
-AXES = [(None, False), (0, False), (-1, False), (1, False), (-2, True), ((0, 1), False), (None, True), (0, True)]
+AXES = [(None, False), (0, False), (-1, False), (1, False), (-2, True), ((0, 1), False), (None, True), (0, True),
+        ((-1,), False), ((0, -1), True), ((-2, -1), False), ((-1,), True)]
 INDEXES = [
     (0,),
     (-1,),
@@ -204,7 +205,9 @@ def subst_values(name, dom, tier, siblings=None):
         if o != name and o not in same and d == (n, ()):
             vals.append(V(o, n))
     vals.append(("Slice", "s", 0, n, 1, n))
+    vals.append(("Slice", "s", 0, n + 2, 1, n))  # stop beyond the bounded type: clamped to it
     if n >= 2:
+        vals.append(("Slice", "s", 1, n + 3, 2, n))
         vals.append(("Slice", "s", 1, n, 1, n))
         vals.append(("Slice", name, 0, n, 2, n))
         vals.append(("Slice", "s", 0, n - 1, 1, n))
